@@ -873,3 +873,163 @@ Proof.
   - discriminate.
   - subst e. destruct (tier_not_ok fx _ _ _ Et).
 Qed.
+
+(* ------------------------------------------------------------------ Benham (with the elimination tie refused) is Smith-efficient *)
+Lemma pos_key (v : pvotes) a b : 0 < pget0 v (a, b) -> In a (candidates v) /\ In b (candidates v).
+Proof.
+  unfold pget0. destruct (pget v (a, b)) as [n|] eqn:E; [|lia]. intros _. apply pget_In in E.
+  split; apply (candidates_spec v); exists (a, b), n; cbn [fst snd]; auto.
+Qed.
+
+Lemma cw_head cur c0 l : wf_votes cur = true -> condorcet_winner (pairwise cur) = c0 :: l -> is_cw (pairwise cur) c0.
+Proof.
+  intros Hwf E.
+  assert (Hne : pairwise cur <> []) by (intros E0; rewrite E0 in E; discriminate E).
+  destruct (cw_spec (pairwise cur) (pairwise_nodup cur) (pairwise_nonneg cur Hwf) (pairwise_two cur Hwf Hne)) as [H1 H2].
+  destruct H2 as [H2|(c' & H2)]; [congruence|]. apply H1. rewrite H2 in E. injection E as <- _. exact H2.
+Qed.
+
+Lemma benham_loop_S fx f v0 cur : benham_loop fx (S f) v0 cur =
+  match condorcet_winner (pairwise cur) with
+  | c :: _ => H_ok [Cand c]
+  | [] => match eliminate_one cur with
+          | None => H_index
+          | Some remains =>
+              match remains with
+              | [_] => H_ok remains
+              | _ => if fx && has_tie remains then H_nie else benham_loop fx f v0 (subset_votes (plain remains) v0)
+              end
+          end
+  end.
+Proof. reflexivity. Qed.
+Lemma benham_loop_0 fx v0 cur : benham_loop fx 0 v0 cur =
+  match condorcet_winner (pairwise cur) with c :: _ => H_ok [Cand c] | [] => H_fuel end.
+Proof. reflexivity. Qed.
+
+Section BENHAM.
+  Variable votes : rvotes.
+  Hypothesis Hwf : wf_votes votes = true.
+  Hypothesis Hne : pairwise votes <> [].
+  Let P := pairwise votes.
+  Let Sm := smith_schwartz P true.
+  Let K (cur : rvotes) := all_ranked_candidates (qv cur).
+
+  Definition binv (cur : rvotes) : Prop :=
+    wf_votes cur = true /\
+    (forall x, In x (K cur) -> In x (cands_of votes)) /\
+    (forall a b, In a (K cur) -> In b (K cur) -> pget0 (pairwise cur) (a, b) = pget0 P (a, b)) /\
+    (exists s, In s Sm /\ In s (K cur)) /\
+    (exists x y, In x (K cur) /\ In y (K cur) /\ x <> y).
+
+  Lemma P_two : (2 <= length (candidates P))%nat.
+  Proof. apply pairwise_two; assumption. Qed.
+  Lemma P_nonneg p : 0 <= pget0 P p.
+  Proof. apply (pget0_nonneg P (pairwise_nonneg votes Hwf)). Qed.
+  Lemma K_in_P cur x : binv cur -> In x (K cur) -> In x (candidates P).
+  Proof. intros (_ & HK & _) Hx. apply cands_in_pairwise; [exact Hwf|exact Hne|apply HK, Hx]. Qed.
+  Lemma candP_in_K cur x : In x (candidates (pairwise cur)) -> In x (K cur).
+  Proof. intros H. apply arc_iff, candidates_pairwise_in, H. Qed.
+
+  Lemma binv_start : binv votes.
+  Proof.
+    split; [exact Hwf|]. split; [intros x Hx; apply arc_iff, Hx|]. split; [reflexivity|].
+    destruct (smith_dominating P P_two) as [HneS _]. split.
+    - fold Sm in HneS. destruct Sm as [|s t] eqn:E; [congruence|]. exists s. split; [left; reflexivity|].
+      apply candP_in_K. apply (smith_subset P P_two). fold Sm. rewrite E. left. reflexivity.
+    - pose proof P_two as H2. pose proof (candidates_NoDup P) as Hnd.
+      destruct (candidates P) as [|x [|y t]] eqn:E; cbn [length] in H2; try lia.
+      exists x, y. split; [apply candP_in_K; fold P; rewrite E; left; reflexivity|].
+      split; [apply candP_in_K; fold P; rewrite E; right; left; reflexivity|].
+      intros ->. inversion Hnd as [|? ? Hn _]; subst. apply Hn. left. reflexivity.
+  Qed.
+
+  Lemma cw_in_smith cur c : binv cur -> is_cw (pairwise cur) c -> In c Sm.
+  Proof.
+    intros Hb [Hc Hall]. pose proof Hb as (Hwfc & HK & Hpw & (s & Hs & HsK) & _).
+    destruct (in_dec Pos.eq_dec c Sm) as [Hin|Hout]; [exact Hin|exfalso].
+    pose proof (candP_in_K cur c Hc) as HcK.
+    assert (Hsc : s <> c) by (intros ->; exact (Hout Hs)).
+    destruct (smith_dominating P P_two) as [_ Hdom].
+    assert (Hb1 : beats P s c) by (apply Hdom; [exact Hs|apply (K_in_P cur c Hb HcK)|exact Hout]).
+    unfold beats in Hb1. rewrite <- (Hpw s c HsK HcK), <- (Hpw c s HcK HsK) in Hb1.
+    assert (Hpos : 0 < pget0 (pairwise cur) (s, c)).
+    { pose proof (P_nonneg (c, s)) as H0. rewrite <- (Hpw c s HcK HsK) in H0. lia. }
+    destruct (pos_key _ _ _ Hpos) as [HsC _].
+    pose proof (Hall s HsC Hsc) as Hb2. unfold beats in Hb2. lia.
+  Qed.
+
+  Lemma survive cur R : binv cur -> condorcet_winner (pairwise cur) = [] ->
+    NoDup R -> incl R (K cur) -> length R = (length (K cur) - 1)%nat -> exists s', In s' Sm /\ In s' R.
+  Proof.
+    intros Hb Hcw Hn Hi Hl. pose proof Hb as (Hwfc & HK & Hpw & (s & Hs & HsK) & (x0 & y0 & Hx0 & Hy0 & Hxy)).
+    destruct (in_dec Pos.eq_dec s R) as [HsR|HsR]; [exists s; auto|].
+    destruct (existsb (fun x => cmem x Sm) R) eqn:Ex.
+    { apply existsb_exists in Ex. destruct Ex as (x & Hx & Hm). exists x. split; [apply cmem_iff, Hm|exact Hx]. }
+    exfalso.
+    assert (Hall : forall x, In x (K cur) -> x <> s -> beats (pairwise cur) s x).
+    { intros x Hx Hxs.
+      assert (HxR : In x R).
+      { destruct (in_dec Pos.eq_dec x R) as [H|H]; [exact H|exfalso]. apply Hxs. exact (drop_one R (K cur) x s Hn Hi Hl Hx HsK H HsR). }
+      assert (HxS : ~ In x Sm).
+      { intros H. assert (existsb (fun x => cmem x Sm) R = true); [|congruence]. apply existsb_exists. exists x. split; [exact HxR|apply cmem_iff, H]. }
+      destruct (smith_dominating P P_two) as [_ Hdom].
+      pose proof (Hdom s x Hs (K_in_P cur x Hb Hx) HxS) as Hb1. unfold beats in *.
+      rewrite (Hpw s x HsK Hx), (Hpw x s Hx HsK). exact Hb1. }
+    (* somebody else is there, so s is a candidate of the current dictionary and its Condorcet winner *)
+    assert (Hother : exists x1, In x1 (K cur) /\ x1 <> s).
+    { destruct (Pos.eq_dec x0 s) as [E|E]; [exists y0; split; [exact Hy0|intros E2; apply Hxy; congruence]|exists x0; auto]. }
+    destruct Hother as (x1 & Hx1 & Hx1s).
+    pose proof (Hall x1 Hx1 Hx1s) as Hb1. unfold beats in Hb1.
+    assert (Hpos : 0 < pget0 (pairwise cur) (s, x1)).
+    { pose proof (P_nonneg (x1, s)) as H0. rewrite <- (Hpw x1 s Hx1 HsK) in H0. lia. }
+    destruct (pos_key _ _ _ Hpos) as [HsC _].
+    assert (Hne2 : pairwise cur <> []) by (intros E; rewrite E in HsC; exact HsC).
+    assert (Hiscw : is_cw (pairwise cur) s).
+    { split; [exact HsC|]. intros x Hx Hxs. apply Hall; [apply candP_in_K, Hx|exact Hxs]. }
+    apply (cw_spec (pairwise cur) (pairwise_nodup cur) (pairwise_nonneg cur Hwfc) (pairwise_two cur Hwfc Hne2)) in Hiscw.
+    congruence.
+  Qed.
+
+  Lemma binv_next cur R : binv cur -> NoDup R -> incl R (K cur) -> (exists s', In s' Sm /\ In s' R) -> (2 <= length R)%nat ->
+    binv (subset_votes R votes).
+  Proof.
+    intros Hb Hn Hi (s' & Hs' & Hs'R) H2. pose proof Hb as (_ & HK & _).
+    assert (HK' : forall x, In x (K (subset_votes R votes)) <-> In x R /\ In x (cands_of votes)).
+    { intros x. unfold K. rewrite arc_iff. apply subset_cands. }
+    split; [apply subset_wf, Hwf|]. split; [intros x Hx; apply HK' in Hx; tauto|]. split; [|split].
+    - intros a b Ha Hb'. apply HK' in Ha, Hb'. apply subset_restriction; [exact Hwf|tauto|tauto].
+    - exists s'. split; [exact Hs'|]. apply HK'. split; [exact Hs'R|apply HK, Hi, Hs'R].
+    - destruct R as [|x [|y t]]; cbn [length] in H2; try lia. exists x, y.
+      split; [apply HK'; split; [left; reflexivity|apply HK, Hi; left; reflexivity]|].
+      split; [apply HK'; split; [right; left; reflexivity|apply HK, Hi; right; left; reflexivity]|].
+      intros ->. inversion Hn as [|? ? Hx _]; subst. apply Hx. left. reflexivity.
+  Qed.
+
+  Lemma benham_smith_loop : forall fuel cur c, binv cur -> benham_loop true fuel votes cur = H_ok [Cand c] -> In c Sm.
+  Proof.
+    induction fuel as [|f IH]; intros cur c Hb H; pose proof Hb as (Hwfc & _ & _ & _ & (x0 & y0 & Hx0 & Hy0 & Hxy)).
+    - rewrite benham_loop_0 in H. destruct (condorcet_winner (pairwise cur)) as [|c0 l] eqn:Ec; [discriminate|].
+      injection H as <-. exact (cw_in_smith cur c0 Hb (cw_head cur c0 l Hwfc Ec)).
+    - rewrite benham_loop_S in H. destruct (condorcet_winner (pairwise cur)) as [|c0 l] eqn:Ec.
+      2:{ injection H as <-. exact (cw_in_smith cur c0 Hb (cw_head cur c0 l Hwfc Ec)). }
+      destruct (eliminate_one cur) as [rem|] eqn:Ee; [|discriminate].
+      assert (HlenK : (2 <= length (K cur))%nat) by (apply (two_in_length _ x0 y0 Hx0 Hy0 Hxy)).
+      destruct rem as [|r [|r2 rr]].
+      + destruct (elim_spec cur [] Hwfc Ee eq_refl) as (R & E1 & _ & _ & E4). destruct R; [|discriminate]. cbn [length] in E4. fold (K cur) in E4. lia.
+      + injection H as ->. destruct (elim_spec cur [Cand c] Hwfc Ee eq_refl) as (R & E1 & E2 & E3 & E4).
+        destruct R as [|x [|y R]]; try discriminate. injection E1 as <-.
+        destruct (survive cur [c] Hb Ec E2 E3 E4) as (s' & Hs' & [<-|[]]). exact Hs'.
+      + cbn [andb] in H. destruct (has_tie (r :: r2 :: rr)) eqn:Et; [discriminate|].
+        destruct (elim_spec cur _ Hwfc Ee Et) as (R & E1 & E2 & E3 & E4). rewrite E1, plain_map_cand in H.
+        assert (H2 : (2 <= length R)%nat).
+        { assert (El : length (r :: r2 :: rr) = length R) by (rewrite E1, map_length; reflexivity). cbn [length] in El. lia. }
+        apply (IH _ c (binv_next cur R Hb E2 E3 (survive cur R Hb Ec E2 E3 E4) H2) H).
+  Qed.
+
+  Theorem smith_benham_sec c : benham true votes = H_ok [Cand c] -> In c Sm.
+  Proof. intros H. exact (benham_smith_loop _ votes c binv_start H). Qed.
+End BENHAM.
+
+Theorem smith_benham votes c : wf_votes votes = true -> pairwise votes <> [] ->
+  benham true votes = H_ok [Cand c] -> In c (smith_schwartz (pairwise votes) true).
+Proof. intros Hwf Hne. exact (smith_benham_sec votes Hwf Hne c). Qed.
